@@ -2,8 +2,12 @@
 package main
 
 import (
+	"runtime/debug"
+	"time"
+
 	"encoding/json"
 	"fmt"
+	"github.com/diskfs/go-diskfs/verifhook/vtime"
 	"os"
 	"sort"
 
@@ -16,6 +20,11 @@ func main() {
 		fmt.Println("usage: vmc Cnn quick|thorough | vmc replay <file> | vmc worker ...")
 		os.Exit(2)
 	}
+	// own the environment: fixed clock, fixed SOURCE_DATE_EPOCH (drivers that vary them do so explicitly)
+	os.Setenv("SOURCE_DATE_EPOCH", "1700000000")
+	fixed := time.Unix(1700000000, 0).UTC()
+	vtime.Set(func() time.Time { return fixed })
+	debug.SetGCPercent(1000)
 	switch os.Args[1] {
 	case "list":
 		var ids []string
